@@ -1,8 +1,11 @@
 #!/bin/bash
 # Must-fail corpus: applies every seeded change to a scratch copy of /repo and runs the check
 # of the property recorded in its meta.json; prints one line per seed and compares with the
-# recorded status (detected / detected-coarse / missed). Usage: tools_selftest.sh [jobs]
+# recorded status (detected / detected-coarse / missed). Usage: tools_selftest.sh [jobs] [seed-id ...]
+# (no seed ids: the whole corpus, about two hours on 16 cores; with ids: only those)
 jobs=${1:-3}
+shift
+only=" $* "
 export GOFLAGS=-mod=mod GOPROXY=off GOSUMDB=off GOTOOLCHAIN=local
 run_one() {
   sd=$1
@@ -23,4 +26,8 @@ run_one() {
   rm -rf $d
 }
 export -f run_one
-ls -d /verif/seeded/*/ | sed 's:/$::' | while read sd; do test -f $sd/meta.json && test -f $sd/patch.diff && echo $sd; done | xargs -P $jobs -I{} bash -c 'run_one {}'
+ls -d /verif/seeded/*/ | sed 's:/$::' | while read sd; do
+  test -f $sd/meta.json && test -f $sd/patch.diff || continue
+  if [ "$only" != "  " ]; then case "$only" in *" $(basename $sd) "*) ;; *) continue;; esac; fi
+  echo $sd
+done | xargs -P $jobs -I{} bash -c 'run_one {}'
